@@ -5,7 +5,7 @@ from . import inputs, hist, synth, edits
 PROP = 'C04'
 LEVEL = 'exploration'
 WALL_CAP = {'quick': 300, 'thorough': 3000}
-RUNS = {'quick': 1200, 'thorough': 25000}
+RUNS = {'quick': 5000, 'thorough': 50000}
 GROW = ['AddNode', 'AddExtraData', 'AddLooseBlock', 'CloneShape', 'AddShape', 'SetParentNode', 'DeleteShape', 'DeleteNode', 'AlphaProperty', 'RenameShape']
 RULE = ('one run = a model (sample incl. collision / ordered-node / loose-block / non-zero-root files, synthesised graph of any block type x version incl. bhk constraint chains '
         'and controller chains, API-built model with several shapes and nodes; optionally grown by API edits: clones, added nodes, re-parenting, loose blocks, duplicate shape '
